@@ -48,6 +48,9 @@ func c09Schema() dyn.Schema {
 		val.Col{Name: "oes", K: 'o', KT: 's', Enum: enumS}, val.Col{Name: "ses", K: 's', KT: 's', Enum: enumS, Max: -1},
 		val.Col{Name: "sei", K: 's', KT: 'i', Enum: enumI, Max: -1},
 		val.Col{Name: "mes", K: 'm', KT: 's', VT: 's', Enum: enumS, Max: -1},
+		val.Col{Name: "eu", K: 'a', KT: 'u', Enum: []val.Atom{val.Uuid(gen.UUIDn(71)), val.Uuid(gen.UUIDn(72))}},
+		val.Col{Name: "seu", K: 's', KT: 'u', Enum: []val.Atom{val.Uuid(gen.UUIDn(71)), val.Uuid(gen.UUIDn(72))}, Max: -1},
+		val.Col{Name: "er", K: 'a', KT: 'r', Enum: []val.Atom{val.Real(1.5), val.Real(-2)}},
 		val.Col{Name: "ru", K: 'a', KT: 'u', RefTable: "R", RefType: "strong"},
 		val.Col{Name: "rou", K: 'o', KT: 'u', RefTable: "R", RefType: "weak"},
 		val.Col{Name: "rsu", K: 's', KT: 'u', RefTable: "R", RefType: "weak", Max: -1},
